@@ -253,50 +253,58 @@ def limit(ctx: Ctx) -> List[Ob]:
                                   "" if ok else "the limit must be the upper bound of a slice from 0: this returns everything "
                                   "*after* the first k matches"))
         # LIMIT-2: returns
+        from .util import exit_cases, find_cases, path_conds, stmts_before
+
+        def mentions_limit(e: ast.AST) -> bool:
+            return any(isinstance(x, ast.Name) and x.id == "max_results" for x in ast.walk(e))
+
         is_gen = any(isinstance(x, (ast.Yield, ast.YieldFrom)) for x in iter_own(f.node))
         if not is_gen:
-            for n in iter_own(f.node):
-                if isinstance(n, ast.Return) and n.value is not None:
-                    v = n.value
-                    if isinstance(v, (ast.List, ast.Tuple)) and not v.elts:
-                        continue
-                    if isinstance(v, ast.Constant):
-                        continue
-                    dep = any(isinstance(x, ast.Name) and x.id == "max_results" for x in ast.walk(v))
-                    if not dep and isinstance(v, ast.Name):
-                        r = ctx.env.reaching(f, n, v.id)
-                        if r is not None:
-                            dep = any(any(isinstance(x, ast.Name) and x.id == "max_results" for x in ast.walk(val)) for val in r[0])
-                    obs.append(ctx.ob("LIMIT", props, f, f"return {norm(v)} honours max_results", n, dep,
-                                      "" if dep else "this branch returns all matches regardless of max_results"))
+            for c in exit_cases(ctx, f, ("return",)):
+                v = c.value
+                if v is None or (isinstance(v, (ast.List, ast.Tuple)) and not v.elts) or isinstance(v, ast.Constant):
+                    continue
+                dep = mentions_limit(v)
+                if not dep and isinstance(v, ast.Name):
+                    r = ctx.env.reaching(f, c.stmt, v.id)
+                    if r is not None:
+                        dep = any(mentions_limit(val) for val in r[0])
+                # "no limit given" branch: reached only when max_results is falsy / None
+                unlimited = any((not pol and isinstance(e, ast.Name) and e.id == "max_results") or (pol and norm(e) == "max_results is None") for e, pol in c.conds)
+                ok = dep or unlimited
+                obs.append(ctx.ob("LIMIT", props, f, f"return {norm(v)} honours max_results", c.stmt, ok,
+                                  "" if ok else "this branch returns all matches regardless of max_results"))
         else:
-            # generator: count += 1 precedes `if max_results and count >= max_results: break`
+            # generator: the match counter is incremented before `count >= max_results` ends the loop
             ok = False
             why = "no cut-off test on max_results found in the yielding loop"
             for lp in iter_own(f.node):
                 if not isinstance(lp, ast.For) or not any(isinstance(x, ast.Yield) for st in lp.body for x in ast.walk(st)):
                     continue
-                for i, st in enumerate(lp.body):
-                    if isinstance(st, ast.If) and any(isinstance(x, ast.Name) and x.id == "max_results" for x in ast.walk(st.test)) \
-                            and any(isinstance(x, (ast.Break, ast.Return)) for y in st.body for x in ast.walk(y)):
-                        cmp_ok = False
-                        counter = None
-                        for c in ast.walk(st.test):
-                            if isinstance(c, ast.Compare) and len(c.ops) == 1:
-                                l, r = norm(c.left), norm(c.comparators[0])
-                                if isinstance(c.ops[0], (ast.GtE, ast.Eq)) and r == "max_results":
-                                    cmp_ok, counter = True, l
-                                if isinstance(c.ops[0], (ast.LtE, ast.Eq)) and l == "max_results":
-                                    cmp_ok, counter = True, r
-                        inc_before = any(
-                            isinstance(p, ast.AugAssign) and isinstance(p.op, ast.Add) and norm(p.target) == counter
-                            and isinstance(p.value, ast.Constant) and p.value.value == 1
-                            for p in lp.body[:i]
-                        )
-                        ok = cmp_ok and inc_before
-                        why = "" if ok else "the match counter must be incremented before it is compared with `>= max_results`"
+                for st in ast.walk(lp):
+                    if not (isinstance(st, ast.If) and mentions_limit(st.test) and any(isinstance(x, (ast.Break, ast.Return)) for y in st.body for x in ast.walk(y))):
+                        continue
+                    cmp_ok = False
+                    counter = None
+                    for cc in ast.walk(st.test):
+                        if isinstance(cc, ast.Compare) and len(cc.ops) == 1:
+                            l, r = norm(cc.left), norm(cc.comparators[0])
+                            if isinstance(cc.ops[0], (ast.GtE, ast.Eq)) and r == "max_results":
+                                cmp_ok, counter = True, l
+                            if isinstance(cc.ops[0], (ast.LtE, ast.Eq)) and l == "max_results":
+                                cmp_ok, counter = True, r
+                    before = [p for p in stmts_before(ctx, f, st) if any(p is x for x in ast.walk(lp))]
+                    inc_before = any(
+                        isinstance(p, ast.AugAssign) and isinstance(p.op, ast.Add) and norm(p.target) == counter
+                        and isinstance(p.value, ast.Constant) and p.value.value == 1
+                        for p in before
+                    )
+                    ok = cmp_ok and inc_before
+                    why = "" if ok else "the match counter must be incremented before it is compared with `>= max_results`"
             obs.append(ctx.ob("LIMIT", ["C09"], f, "generator stops after max_results matches", None, ok, why))
     # find_first asks for one result and returns the first element or None
+    from .util import exit_cases as _ec, find_cases as _fc
+
     for q in ("Node.find_first",):
         f = m.func(q)
         ok = False
@@ -307,8 +315,9 @@ def limit(ctx: Ctx) -> List[Ob]:
                         ok = True
         obs.append(ctx.ob("LIMIT", ["C09"], f, "find_first delegates to find_all(max_results=1)", None, ok,
                           "" if ok else "find_first must limit the search to one result"))
-        rets = [n for n in iter_own(f.node) if isinstance(n, ast.Return) and n.value is not None]
-        ok2 = any(isinstance(r.value, ast.IfExp) and norm(r.value.body).endswith("[0]") and norm(r.value.orelse) == "None" for r in rets)
+        cases = _ec(ctx, f, ("return",))
+        valued = [c for c in cases if c.value is not None and not (isinstance(c.value, ast.Constant) and c.value.value is None)]
+        ok2 = bool(valued) and all(_fc([c], "return", "$$r[0]", [("$$r", True)]) for c in valued)
         obs.append(ctx.ob("LIMIT", ["C09"], f, "find_first returns res[0] or None", None, ok2,
                           "" if ok2 else "find_first must return the first match or None"))
     return obs
